@@ -695,12 +695,13 @@ def rodrigues(c, s, axis, dim):
 def grp_spatial(cx, tier):
     alpha = sym("alpha_deg")
     # in two dimensions there is one rotation (about the plane's normal): whatever `axis` is handed over (Mesh.rotate requires one)
-    for dim, axis in ((2, 0), (2, 1), (2, 2), (3, 0), (3, 1), (3, 2)):
+    # an axis counted from the end (-1: the last axis) is the other spelling of the same axis
+    for dim, axis in ((2, 0), (2, 1), (2, 2), (3, 0), (3, 1), (3, 2), (3, -1), (3, -2), (3, -3)):
         def c(dim=dim, axis=axis):
             R = cx.call("rotation_matrix", alpha, dim=dim, axis=axis, mod="_spatial")
             a = alpha * ring.pi() / 180
             cs, sn = npmodel.cos(a), npmodel.sin(a)
-            want = rodrigues(cs, sn, axis, dim)
+            want = rodrigues(cs, sn, axis % 3, dim)
             bad = differs(R, want)
             RtR = ref_einsum("ki,kj->ij", R, R)
             I = np.array([[ONE if i == j else ZERO for j in range(dim)] for i in range(dim)], dtype=object)
